@@ -2,6 +2,7 @@
 from __future__ import annotations
 
 from .. import drivers as D
+from .. import models
 from ..spec import Spec, vand, veq
 from . import common as C
 
@@ -11,10 +12,12 @@ ASSUMPTIONS = [
     "shapes bounded as in coverage.bounds",
     "builtins max/min modelled as If-terms, int() identity on integer terms",
     "probe variants issue public queries (current_time, start_time on every eligible machine, earliest_start_time, ongoing/uncompleted) between dispatches",
+    "observed sub-spaces subscribe one of every observer the library ships (history, unscheduled-operations, 7 feature observers + composite, "
+    "2 reward observers, residual graph updater) before the first dispatch (numpy facade: float32 rounding outside)",
     "replay is checked on a fresh dispatcher after every prefix and on the same dispatcher after reset() at the end "
     "(thorough: also at a chosen prefix); Schedule.from_job_sequences replay is part of C14",
 ]
-STUBS = ["max", "min", "int (dispatcher module only)"]
+STUBS = ["max", "min", "int (dispatcher module only)", "np facade (observed sub-spaces)"]
 XHAIR_PREFIX = "c02_"   # leaf kernels re-decided by CrossHair (vf/xhair/kernels.py)
 BUDGET = {"quick": 420, "thorough": 2400}
 
@@ -36,6 +39,8 @@ def subspaces(tier):
     out += C.structure_subspaces(D.shapes(3, 3), 2, True, only_flexible=True, filter="none", probe=True)
     out += C.structure_subspaces(D.shapes(3, 3), 2, True, only_flexible=True, filter="default_pair")
     out += C.structure_subspaces([s for s in s4 if sum(s) >= 3], 2, False, filter="none", probe=True)
+    out += C.structure_subspaces(D.shapes(3, 3) + [(2, 2)], 2, False, filter="none", observed="atj")
+    out += C.structure_subspaces(D.shapes(3, 3), 2, False, canonical=True, filter="default_pair", observed="disj")
     if tier == "thorough":
         out += C.structure_subspaces(s4, 2, False, filter="none", reset_prefix=True)
         out += C.structure_subspaces([s for s in s4 if sum(s) == 4], 2, True, only_flexible=True, filter="none")
@@ -45,6 +50,10 @@ def subspaces(tier):
 
 
 cost = C.cost
+
+
+def extra_models(sp):
+    return models.numpy_facade_models(include_rl=True) if sp.get("observed") else []
 
 
 def _starts(disp):
@@ -76,6 +85,9 @@ def harness(eng, sp):
     filt = sp.get("filter", "none")
     disp = Dispatcher(inst, ready_operations_filter=C.make_filter(filt))
     hist = HistoryObserver(disp)
+    if sp.get("observed"):
+        # one of every observer the library ships is subscribed as well: none may disturb start times or bookkeeping
+        C.attach_library_observers(disp, inst, sp["observed"])
     spec = Spec(desc)
     reset_at = eng.choice(desc.n_ops + 1, "reset_at") if sp.get("reset_prefix") else desc.n_ops
     for k in range(desc.n_ops):
